@@ -15,7 +15,7 @@ ENGINE = "world"
 TECHNIQUE = "model-based property testing over operation histories (generated programs with swarm-enabled operation classes, interpreted over a pool of live related objects); oracle = frame condition on typed snapshots of every live object, with the view relation kept by the model"
 RULE = ("programs of 3..30 (thorough ..60) steps over a pool of <= 10 live vectors/tables related by derivation (construction from "
         "vectors, >>, <<, copies, slices, masks, selections, joins, sorts, aggregates, live column views, attribute assignment "
-        "with a donor vector); writes through every key form on vectors, table cell/row/column/region assignment, renames. "
+        "with a donor vector, 2-D selections, rows kept from t[i]); writes through every key form on vectors (index vectors the program keeps, caller tuples as whole-vector / whole-column values, equal values of the next rung), table cell/row/column/region assignment, renames; plus directed histories (fixed prefixes + generated tails) for caller tuples handed over as columns and for joins on day / datetime keys. "
         "Non-trivial = the program contains a successful write executed while >= 2 other live objects are related by derivation "
         "to the written object; distinct = program encoding.")
 ASSUMPTIONS = [
